@@ -1402,7 +1402,8 @@ def idfrag_scenarios(ctx, out):
     N0 = 1000
     cov = {'histories': 0, 'operations': 0, 'by_operation': {}, 'by_format': {}, 'member_states_compared': 0,
            'states_with_ids_drawn_but_not_loaded': 0, 'states_with_unregistered_or_stale_id': 0,
-           'id_resolutions_compared': 0, 'written_references_compared': 0, 'uuid_mode_histories': 0}
+           'id_resolutions_compared': 0, 'written_references_compared': 0, 'uuid_mode_histories': 0,
+           'histories_meeting_head_ok': 0, 'meeting_head_ok_by_format_and_mode': {}}
     model = common.Model()
     samples = []
     with tempfile.TemporaryDirectory() as td:
@@ -1411,10 +1412,36 @@ def idfrag_scenarios(ctx, out):
             uuid0 = rng.random() < 0.6
             w = _IdWorld(E, ResourceSet, URI, JsonResource, mm, td, f'i{it}', fmt)
             w.res.use_uuid = uuid0
-            hist, toks = [['format', fmt], ['uuid', uuid0]], [0, N0, 7, int(uuid0)]
+            nxt = [0]
+            if rng.random() < 0.55:
+                # the history starts by LOADING a document prepared elsewhere (the model's Load d: ids that were never
+                # drawn in this session): only so can id attributes be inside the theorems' premises
+                k = rng.randrange(1, 6)
+                texts = rng.sample(IDF_USABLE, k)
+                spec = []
+                for n in range(k):
+                    parent = rng.choice([None] + w.rightmost_path()) if n else None
+                    w.add(n, parent)
+                    r = rng.random()
+                    key = texts[n] if r < 0.6 else (rng.choice(IDF_UNUSABLE) if r < 0.7 else None)
+                    if n and rng.random() < 0.06:
+                        key = spec[0][2]                       # the same id twice in one document
+                    if key is not None:
+                        w.objs[n].key = key
+                    spec.append([n, parent, key])
+                w.reload()
+                nxt[0] = k
+                hist = [['format', fmt], ['load', uuid0, spec]]
+                toks = [0, N0, 1, k]
+                for n, _, key in spec:
+                    toks += [n] + ([1, 100 + n] if uuid0 else [0, 0]) + \
+                            ([1, IDF_USABLE.index(key) + 1] if key is not None and _idf_usable(key) else [0, 0])
+                loaded_key = {n: key for n, _, key in spec if key is not None and _idf_usable(key)}
+            else:
+                hist, toks = [['format', fmt], ['uuid', uuid0]], [0, N0, 7, int(uuid0)]
+                loaded_key = {}
             expect_written = []                 # per operation: None or (member, written fragment)
             states = []                         # implementation observations after every operation
-            nxt = [0]
             drawn_not_loaded = set()
 
             def record(written=None):
@@ -1460,7 +1487,13 @@ def idfrag_scenarios(ctx, out):
                         drawn_not_loaded.clear()
                     elif k == 'key':
                         n = rng.choice(w.order)
-                        text = rng.choice(IDF_USABLE * 2 + IDF_UNUSABLE + [None])
+                        r = rng.random()     # (an edit to a text that is not bound to the object leaves the premises)
+                        if r < 0.35 and n in loaded_key:
+                            text = loaded_key[n]                  # back to the id the document gave it
+                        elif r < 0.7:
+                            text = rng.choice(IDF_UNUSABLE + [None, None])
+                        else:
+                            text = rng.choice(IDF_USABLE)
                         h = ['key', n, text]
                         t = [5, n] + ([1, IDF_USABLE.index(text) + 1] if text is not None and _idf_usable(text) else [0, 0])
                         w.objs[n].key = text
@@ -1488,6 +1521,12 @@ def idfrag_scenarios(ctx, out):
             if failed:
                 out.diff(f'idfrag: {failed}', case)
                 continue
+            inside = model.ask('idfrag_premises', toks) == [1]     # head_okb: the history meets the theorems' premises
+            cov['histories_meeting_head_ok'] += inside
+            mode = f'{fmt}-{"uuid" if uuid0 else "idattr"}'
+            cov['meeting_head_ok_by_format_and_mode'].setdefault(mode, [0, 0])
+            cov['meeting_head_ok_by_format_and_mode'][mode][0] += inside
+            cov['meeting_head_ok_by_format_and_mode'][mode][1] += 1
             bad = _idfrag_compare(model.ask('idfrag', toks), states, hist, cov)
             if bad:
                 out.diff(f'idfrag ({fmt}): {bad}', case)
